@@ -19,11 +19,42 @@ type failure struct {
 	detail map[string]interface{}
 }
 
+// stressSessions x stressInvocations invocations of every stress configuration.
+var stressSessions, stressInvocations = 2, 4
+
 func phasesOf(pr prog) []string {
 	if pr.Cache {
 		return []string{"cold", "warm"}
 	}
+	if pr.Stress {
+		var out []string
+		for s := 0; s < stressSessions; s++ {
+			for i := 0; i < stressInvocations; i++ {
+				out = append(out, fmt.Sprintf("s%di%d", s, i))
+			}
+		}
+		return out
+	}
 	return []string{""}
+}
+
+// repeatBeforeAllSeen reports whether, reading the placement in shard order, a
+// machine repeats before a machine that has not appeared yet (A,A,B; A,B,A,C):
+// the consumers of a machine-combined shuffle must still read every machine once.
+func repeatBeforeAllSeen(placement string) bool {
+	seen := map[string]bool{}
+	repeated := false
+	for _, m := range strings.Split(placement, ",") {
+		if seen[m] {
+			repeated = true
+		} else {
+			if repeated {
+				return true
+			}
+			seen[m] = true
+		}
+	}
+	return false
 }
 
 // behaviour is the deterministic part of what a run did internally.
@@ -43,6 +74,9 @@ func (s *supervisor) judge(pl []planned) ev.Coverage {
 		for k, v := range extra {
 			d[k] = v
 		}
+		if programs[x.prog].Stress {
+			phase = "" // the invocations of a stress configuration are one case
+		}
 		fails = append(fails, failure{x.prog, phase, x.cfg, oracle, what, d})
 	}
 	var (
@@ -55,6 +89,11 @@ func (s *supervisor) judge(pl []planned) ev.Coverage {
 		cfgAll                                           = map[string]Config{}
 		cfgChanged                                       = map[string]map[string]bool{} // cfg id -> observable -> true
 		samples                                          = map[string]interface{}{}
+	)
+	var (
+		placements                          = map[string]map[string]int{} // cfg id -> producer placement -> invocations
+		allPlacements, repeatPlacements     = ev.NewCounter(), ev.NewCounter()
+		stressInv, stressMC, stressMCRepeat int
 	)
 	refs := make([]countRef, len(programs))
 	exps := make([]refeval.Expected, len(programs))
@@ -121,6 +160,21 @@ func (s *supervisor) judge(pl []planned) ev.Coverage {
 			produced := res.NRows
 			if pr.NoScan {
 				produced = res.ObsRows
+			}
+			if pr.Stress && x.cfg.Exec == "vsys" && res.Placement != "" {
+				if placements[id] == nil {
+					placements[id] = map[string]int{}
+				}
+				placements[id][res.Placement]++
+				allPlacements.Add(res.Placement)
+				stressInv++
+				if x.cfg.MC {
+					stressMC++
+					if repeatBeforeAllSeen(res.Placement) {
+						stressMCRepeat++
+						repeatPlacements.Add(res.Placement)
+					}
+				}
 			}
 			if pr.P.NumShuffles() > 0 && produced > 0 {
 				nontrivial.Add(fmt.Sprintf("%d|%s|%s", x.prog, ph, id))
@@ -323,25 +377,32 @@ func (s *supervisor) judge(pl []planned) ev.Coverage {
 		"distinct_nontrivial": nontrivial.Distinct(),
 		"rule": fmt.Sprintf("%d fixed programs x %s. Dimensions: executor{local, in-process cluster}; cluster machines{1,2,3}, procs/machine{1,2,4}, MaxLoad{0.01,0.5,0.95}, DoShuffleReaders{on,off}; Parallelism{1,2,4}; MachineCombiners{off,on}; vector size{1,2,4,128}; sort canary{1,2,256}; spill batch{1,4,128}; pragma{Procs(2) (cluster only), Exclusive, Materialize} at every position that accepts one. A cache program counts as two evaluations (cold, warm). Non-trivial = distinct (program, phase, configuration) whose program contains >=1 shuffle and that produced >=1 row in a judged failure-free run.",
 			len(programs), tier),
-		"programs":                                              progNames,
-		"planned_program_configurations":                        len(pl),
-		"distinct_configurations":                               len(cfgAll),
-		"runs_judged":                                           judged,
-		"cluster_runs_judged":                                   clusterRuns,
-		"runs_not_failure_free_skipped":                         notFF,
-		"runs_missing":                                          missing,
-		"distinct_outcomes_program_rows_counters":               outcomes.Distinct(),
-		"distinct_internal_behaviours":                          behaviours.Distinct(),
-		"order_checked_runs":                                    orderChecked,
-		"callback_observers_checked":                            obsChecked,
-		"counter_equalities_checked":                            counterChecks,
-		"counter_upper_bounds_checked":                          partial,
-		"configurations_changing_observable_internal_behaviour": changedTotal,
-		"configurations_changing_by_observable":                 perObs,
-		"single_deviation_effect_by_dimension":                  dimReport,
-		"internal_totals":                                       totals,
-		"mechanisms_without_a_run_time_observable":              "sort canary and spill batch size have no counter that can be read without changing bigslice: by construction every Cogroup input goes through sortio.SortReader, which spills each sorted run through sliceio.Spiller (in batches of SpillBatchSize) and merges the runs; the Cogroup programs (cogroup-second, nested-shuffles, shared-sub-slice, cogroup3) give one consumer shard >= 5 rows of a dependency (9 rows, 2-3 keys), so canary 1 and 2 produce several sorted runs per reader where the default 256 produces one; combiner spills (counted above) are also written in batches of SpillBatchSize",
-		"failing_configurations_by_signature":                   failingRuns,
+		"programs":                                                    progNames,
+		"planned_program_configurations":                              len(pl),
+		"distinct_configurations":                                     len(cfgAll),
+		"runs_judged":                                                 judged,
+		"cluster_runs_judged":                                         clusterRuns,
+		"runs_not_failure_free_skipped":                               notFF,
+		"runs_missing":                                                missing,
+		"distinct_outcomes_program_rows_counters":                     outcomes.Distinct(),
+		"distinct_internal_behaviours":                                behaviours.Distinct(),
+		"order_checked_runs":                                          orderChecked,
+		"callback_observers_checked":                                  obsChecked,
+		"counter_equalities_checked":                                  counterChecks,
+		"counter_upper_bounds_checked":                                partial,
+		"configurations_changing_observable_internal_behaviour":       changedTotal,
+		"configurations_changing_by_observable":                       perObs,
+		"single_deviation_effect_by_dimension":                        dimReport,
+		"stress_rule":                                                 fmt.Sprintf("2 combiner programs with 6 producer shards x {local default; cluster machines{2,3} x task procs/machine{1,2} x MachineCombiners{off,on}} x %d fresh sessions x %d invocations per session; the placement of the 6 producer shards on machines (A,B,C by first appearance, from the Worker.Run calls) is recorded per invocation", stressSessions, stressInvocations),
+		"stress_cluster_invocations":                                  stressInv,
+		"stress_distinct_producer_placements":                         allPlacements.Distinct(),
+		"stress_mc_on_invocations":                                    stressMC,
+		"stress_mc_on_invocations_machine_repeats_before_all_seen":    stressMCRepeat,
+		"stress_mc_on_distinct_placements_machine_repeats_before_all": repeatPlacements.Keys(),
+		"stress_producer_placements_by_configuration":                 placements,
+		"internal_totals":                                             totals,
+		"mechanisms_without_a_run_time_observable":                    "sort canary and spill batch size have no counter that can be read without changing bigslice: by construction every Cogroup input goes through sortio.SortReader, which spills each sorted run through sliceio.Spiller (in batches of SpillBatchSize) and merges the runs; the Cogroup programs (cogroup-second, nested-shuffles, shared-sub-slice, cogroup3) give one consumer shard >= 5 rows of a dependency (9 rows, 2-3 keys), so canary 1 and 2 produce several sorted runs per reader where the default 256 produces one; combiner spills (counted above) are also written in batches of SpillBatchSize",
+		"failing_configurations_by_signature":                         failingRuns,
 	}
 }
 
